@@ -21,7 +21,7 @@ DECIDED = [
 ]
 DECIDED = DECIDED + list(cbor_stream.DECIDED)
 NOT_DECIDED = ["numeric equality of floating-point values through libcbor's float packing (cbor_encode_single/double bit layout) and the stream decoder's loaders", "byte-for-byte agreement with an independent decoder beyond heads and major types",
-               "unbounded recursion depth of the whole-item skip (known finding D11)"]
+               "unbounded recursion depth of the whole-item skip (known finding D11)", "the `smallest form` clause for integral doubles >= 2^32 (known finding D17)"]
 ASSUMPTIONS = list(C04.ASSUMPTIONS) + ["the libcbor stream decoder invokes exactly one callback per decoded element (its reads are bounded by STREAM; its callback discipline is not analysed)"]
 
 OFFSETS = {"cbor_encode_uint": 0x00, "cbor_encode_negint": 0x20, "cbor_encode_bytestring_start": 0x40, "cbor_encode_string_start": 0x60, "cbor_encode_array_start": 0x80, "cbor_encode_map_start": 0xA0,
@@ -293,6 +293,17 @@ def narrow(R, P):
                 lo_ok = lo_ok or kd >= -(2.0 ** 63)
     R.check(lo_ok and hi_ok, "NARROW", "integer-range-guard", where(f, uint[0]), "the cast to int64 happens only for -2^63 <= value < 2^63 (%s, %s)" % (lo_txt, hi_txt),
             "the range test before (int64_t)value is `%s` / `%s`; compared as doubles the upper bound is %s, so the value 2^63 itself reaches the conversion, which is undefined for it (it yields INT64_MIN on x86-64 and INT64_MAX where the conversion saturates - there 2^63 is written as the integer 2^63 - 1)" % (lo_txt, hi_txt, "2^63 inclusive" if hi_txt else "missing"))
+    # "stored in the smallest form that loses nothing": an integer head is 9 bytes from 2^32 on, a single float 5; the integer
+    # form may be chosen ahead of the single form only below 2^32 in magnitude (or after the single form was tried)
+    small = False
+    for c_, pol, b in RU.guards(f, uint[0], dom):
+        n_ = f.d(c_)
+        if pol and n_ is not None and n_["k"] == "bin" and n_["op"] in ("<", "<=") and f.is_const(RU.uncast(f, n_["a"][1])) is not None and float(f.is_const(RU.uncast(f, n_["a"][1]))) <= 2.0 ** 32:
+            small = True
+    later_single = [s for s in single if s.line > uint[0].line]
+    after_single = bool(later_single) and all(ev_dominates(f, s, uint[0], dom) for s in later_single)
+    R.check(small or after_single, "NARROW", "integer-form-not-larger-than-single", where(f, uint[0]), "the integer form is used ahead of the single form only where its head is not longer",
+            "the integer form is chosen before the single-float form for every exact integer in the int64 range: an integral double of magnitude >= 2^32 that a single float represents exactly (2^32, 2^40, -2^35) is written with a 9-byte integer head instead of the 5-byte single")
     R.check(argstr(f, neg[0].node, 1).replace(" ", "") in ("(uint64_t)(-1-int_value)", "(unsignedlong)(-1-int_value)", "(-1-int_value)"), "NARROW", "negative-mapping", where(f, neg[0]), "negative n is written as -1-n",
             "negative integers are written as %s" % argstr(f, neg[0].node, 1))
     g_neg = guard_txt(neg[0])
